@@ -18,9 +18,9 @@ RULE = (
     "Fault enumeration in-process (synchronous process context, real worker loop / monitor loop / merging code): for 3 items every marking of the "
     "items as {ok, raise-before-touching, raise-after-updating} (3^n) x every schedule over 1..3 workers; for 4 and 5 items every marking x "
     "seed-sampled schedules; and every (schedule, item) at which the worker processing that item dies (uncaught BaseException -> non-zero exit "
-    "status), alone and combined with raising items; all with rotating cms/hh/hll argument combinations. Interleaved runs: the same faults with 7-30 items over 1-4 workers under a cooperative-thread context (bounded blocking queue, concurrent filler, seeded scheduler; a deadlock of all processes is a hang). Real spawned runs: a callback raising on "
+    "status), alone and combined with raising items; all with rotating cms/hh/hll argument combinations. Interleaved runs: the same faults with 7-70 items over 1-4 workers (callback exceptions incl. the OSError family and a class that cannot be unpickled) under a cooperative-thread context (bounded blocking queue, concurrent filler, seeded scheduler; a deadlock of all processes is a hang). Real spawned runs: a callback raising on "
     "one item and a worker calling os._exit(3) (quick: the os._exit run; thorough: both). Oracle: raising callbacks -> parallel_add returns, every "
-    "item is delivered once, HyperLogLog registers equal the sequential sketch over ok + raise-after items (nothing else), n_added of cms/hh equals "
+    "item is handed to the callback once, HyperLogLog registers equal the sequential sketch over ok + raise-after items (nothing else), n_added of cms/hh equals "
     "their multiplicity, n_records equals the sum of the returns of ok items only, C01/C03/C04/C06 bounds hold w.r.t. that stream; dead worker -> "
     "parallel_add raises (any exception) instead of returning, within 1000 monitor polls (logical time; real runs get a generous wall-clock bound "
     "whose expiry is reported as inconclusive, never as a violation). Non-trivial: >= 1 faulted and >= 1 ok item on the same worker, or a death. "
@@ -120,8 +120,8 @@ def _coop_task(arg):
     rnd = random.Random(seed)
     base = [it for it in mk_items(BASE_SPECS[3]) if isinstance(it, dict)]
     for t in range(n_cases):
-        n = rnd.choice([7, 12, 16, 24, 30])
-        k = rnd.choice([1, 2, 2, 3, 4])
+        n = rnd.choice([7, 12, 16, 24, 30, 40, 70])
+        k = rnd.choice([1, 2, 2, 3, 4]) if n < 40 else rnd.choice([1, 1, 2])  # >= 32 items per worker in the long runs
         items = []
         for i in range(n):
             it = dict(base[i % len(base)])
